@@ -10,7 +10,7 @@
 (* the next step is one StateDB call of that class.  Pick and Finish steps *)
 (* leave the StateDB variables unchanged, so every property of StateDB is  *)
 (* checked unchanged on the generated behaviours.  The finished behaviour  *)
-(* is printed by SimEmit in the single successor Finish produces (the      *)
+(* is printed by SimDone in the single successor Finish produces (the      *)
 (* simulator evaluates invariants on all candidate successors).            *)
 (***************************************************************************)
 EXTENDS StateDB
